@@ -10,7 +10,7 @@ Extraction "model.ml"
   fresh run process nfresh nprocess nrestart count_sentences
   decode encode setf getf fresh_fields unpack_fields pack_fields
   oracle_decode oracle_zero_reserved
-  run_requests run_requests_line new_srv base_registry
+  run_requests run_requests_line run_requests_gpsd new_srv base_registry
   tty_transmit tty_recover gpsd_transmit hexlify
   render_frame render_cfg
   scan scan_backend parse_chunks ginit
